@@ -1,6 +1,6 @@
 PROP = dict(
     module="M3d.Props.C05",
-    corr=dict(quick=150, thorough=1200),
+    corr=dict(quick=150, thorough=1000),
     gen=[],
     corr_theorems=(
         "faithful kinds (apply bounds invdesc appdist solidr inner outer nilcb sphin cbounds vmball mat* 'pinch apply/invdesc') compare the "
@@ -8,7 +8,9 @@ PROP = dict(
         "(roundtrip), apply_bounds_encloses (encl), apply_distance_exact (dist), transform_solid_conj (solid), transform_sdf_conj (sdf), "
         "transform_metaball_conj (mball), transform_collider_conj + transform_collider_hits + transform_collider_first (coll, first), "
         "transform_collider_sphere (sphc), matrix3_inverse_mul/matrix2_inverse_mul (invmul), and refuse (MODEL-NE-SPEC) if the model "
-        "evaluated on a table stub of the wrapped object does not give that value"
+        "evaluated on a table stub of the wrapped object does not give that value; bits.* kinds compare the Float run of the same model "
+        "bit for bit with the Go methods on arbitrary doubles (rotations by angle included: rotation3_orthogonal / rotation2_orthogonal "
+        "discharge the ortho hypotheses); smart / meshxf3 compare the models of SmartSqueeze.Transform and of the MarchingCubesConj vertex map"
     ),
     rule=(
         "exact mode: every case is a line of small dyadic rationals; transforms are random primitives or (nested) joins of 0-4 of "
@@ -16,16 +18,15 @@ PROP = dict(
         "permutations, integer shears, power-of-two axis scalings), orthogonal transforms given by signed permutation matrices (via the verif "
         "hook), AxisSqueeze with power-of-two ratios; wrapped objects are real Rect/Sphere/Triangle (2D: Rect/Circle/Segment) values and a "
         "recording stub collider; rays are aimed at the collider with non-unit directions; all Go float operations on these inputs are exact, "
-        "outputs must be equal as rationals. distinct = distinct operation lines; the #stat counters record kinds, negative scales, join "
+        "outputs must be equal as rationals. One DistTransform in three is a 3-6 member join containing a reflection (negative uniform scale), a translation and an orthogonal matrix, possibly nested. bits mode: arbitrary doubles, real Rotation(axis,theta)/Rotation(theta) members, Go's own cos/sin/pow values passed to the Float model, results equal as IEEE bit patterns (-0 as +0). SmartSqueeze: overlapping, inverted, empty unsqueezable ranges and pinches. distinct = distinct operation lines; the #stat counters record kinds, negative scales, join "
         "lengths, hit counts per collider kind"
     ),
     trusted=[
         "modelled, not verified: float64 arithmetic as exact field arithmetic (the theorems are exact identities; rounding error of Apply∘Inverse is not bounded)",
-        "math.Sqrt is a parameter sqrtF of the model (hypothesis: sqrtF(x)^2 = x at the one value used); math.Pow in AxisPinch is a parameter powF, tied only for Power in {2, 1/2, 1}",
+        "math.Sqrt is a parameter sqrtF of the model (hypothesis: sqrtF(x)^2 = x for x > 0; Float.sqrt in bits mode); math.Pow in AxisPinch is a parameter powF (hypotheses: monotone, pow 0 = 0, pow 1 = 1, pow(pow(x,p),1/p) = x), tied exactly for Power in {2, 1/2, 1} and bit-for-bit with Go's pow values for a sweep of powers",
         "wrapped Solid/SDF/Collider/Metaball are arbitrary functions (parameters of the model); their own correctness is C03/C06/C07",
-        "the 2-D instance of templates/transform.template is run through the 3-D model on the plane z=0 (same template text; `go run codegen.go -check`); only Matrix2 has its own model",
-        "Rotation(axis, theta) / NewMatrix3Rotation use sin/cos: covered as `ortho m` under the hypothesis m^T m = 1, which is not proved for the sin/cos matrices",
-        "SmartSqueeze.Transform's breakpoint loop and the meshing inside MarchingCubesConj are not modelled in Lean (only the solid that is meshed and the map back); they are checked by Go-side predicates prop:c05/smart_squeeze_piecewise_linear and prop:c05/marching_cubes_conj on every run",
+        "math.Cos/math.Sin are inputs (c, s) of the rotation model under the hypothesis c^2+s^2 = 1 (true of real cos/sin, only approximately of the doubles)",
+        "SmartSqueeze.Transform: termination, validity, monotonicity and inverse are proved about the model; the slope-per-cell description is a Go-side predicate (prop:c05/smart_squeeze_piecewise_linear); the meshing inside MarchingCubesConj is not modelled (C01/C02), its solid and vertex map are; prop:c05/marching_cubes_conj checks the glue",
     ],
     assumptions=[
         "scale factors non-zero, determinants non-zero, squeeze Min<=Max and Ratio>0 (the library's own Inverse divides by them)",
@@ -39,10 +40,10 @@ PROP = dict(
         "positive factor, TransformMetaball/VecScaleMetaball conjugacy and bound, TransformCollider: inner ray = (t^-1 o, L^-1 d), every ray "
         "point corresponds with the same parameter, hits = inner hits with same parameter/count/Extra and unit normal = normalised L n = "
         "factor^2 L^-T n, nil callback safe, SphereCollision conjugacy. The model is tied to /repo on every run by exact-mode correspondence "
-        "with the real Go code on all these methods in 2D and 3D."
+        "with the real Go code on all these methods in 2D and 3D and by bit-exact Float runs on arbitrary doubles (rotations, pinch powers)."
     ),
     level_note=(
-        "Proved about lean/M3d/Model/Transform.lean; exactness over fields, not floats. AxisPinch only executed/tied for powers 2, 1/2, 1 "
-        "(no theorem for general powers); rotations by angle only under an orthogonality hypothesis; SmartSqueeze and meshing not covered."
+        "Proved about lean/M3d/Model/{Transform,Transform2,SmartSqueeze}.lean; exactness over fields, not floats (rounding error is not bounded; "
+        "the bits mode shows the model performs the same float operations). cos/sin/pow are inputs under algebraic hypotheses. Meshing itself is C01/C02."
     ),
 )
